@@ -132,6 +132,7 @@ func idOf(data []byte) int {
 
 func Run(c *Case) *vkit.Outcome {
 	o := &vkit.Outcome{}
+	storekit.SetVariant(vkit.HashOf(c))
 	if c.Procs > 0 {
 		defer runtime.GOMAXPROCS(runtime.GOMAXPROCS(c.Procs))
 	}
